@@ -5,7 +5,7 @@ import random
 from .. import astx, refimpl
 from ..astx import C, N, attr, call, lam
 from ..core import CaseTimeout, case_timeout
-from ..gen_expr import Gen, datasets
+from ..gen_expr import GLOB, Gen, datasets
 from ..refeval import evaluate
 
 N_CASES = {"quick": 350, "thorough": 375000}
@@ -84,6 +84,21 @@ def judge(ctx, q, data, info):
     key = astx.dump_fields(q)
     witness = {"query": astx.unparse(q), "info": info}
     arg = astx.clone(q)
+    if ctx.rnd.random() < 0.25:
+        # a caller-supplied name list (a fresh list object every time, contents vary from call to call)
+        names = ctx.rnd.sample(refimpl.OPERATOR_NAMES + ["Filter", "select", "where"], ctx.rnd.randint(1, 6))
+        ctx.count("custom-name-list")
+        try:
+            out = change_extension_functions_to_calls(arg, list(names))
+        except Exception as e:
+            ctx.case(key, True)
+            ctx.violation(f"exc:{type(e).__name__}", f"{e} | names={names} in: {witness['query'][:300]}", witness)
+            return
+        ctx.case(key + str(sorted(names)), nontrivial=True)
+        exp = refimpl.to_function_form(q, names)
+        if not astx.struct_eq(out, exp):
+            ctx.violation("differs-from-reference-rewrite:custom-names", f"names={names}: {astx.first_diff(out, exp)} | in: {witness['query'][:300]} | out: {astx.unparse(out)[:300]}", {**witness, "names": names})
+        return
     try:
         out = change_extension_functions_to_calls(arg)
     except Exception as e:
@@ -104,8 +119,8 @@ def judge(ctx, q, data, info):
     if not astx.struct_eq(again, out):
         ctx.violation("not-idempotent", f"{astx.first_diff(again, out)} | in: {witness['query'][:400]}", witness)
         return
-    before = [evaluate(q, d) for d in data]
-    after = [evaluate(out, d) for d in data]
+    before = [evaluate(q, d, GLOB) for d in data]
+    after = [evaluate(out, d, GLOB) for d in data]
     for di, (b, a) in enumerate(zip(before, after)):
         if b[0] == "ok" and a != b:
             ctx.violation("value-changed", f"dataset#{di} before={str(b)[:200]} after={str(a)[:200]} | in: {witness['query'][:400]}", witness)
